@@ -755,6 +755,9 @@ func (m *ExpirationManager) restore(collect func() (map[*namespace.Namespace][]s
 					m.logger.Debug("leases loading", "progress", i)
 				}
 
+				// The send has to be one of the select's cases: once the
+				// workers have left (quit, or an error in one of them) nobody
+				// receives from the broker any more.
 				select {
 				case <-quit:
 					return
@@ -762,11 +765,10 @@ func (m *ExpirationManager) restore(collect func() (map[*namespace.Namespace][]s
 				case <-m.quitCh:
 					return
 
-				default:
-					broker <- &lease{
-						namespace: ns,
-						id:        leaseID,
-					}
+				case broker <- &lease{
+					namespace: ns,
+					id:        leaseID,
+				}:
 				}
 			}
 		}
